@@ -230,6 +230,11 @@ impl<T: RefCnt, Cfg: Config> CaS<T> for HybridStrategy<Cfg> {
             let old = <Self as InnerStrategy<T>>::load(self, storage);
             // Observation of their inequality is enough to make a verdict
             if old.as_ptr() != current.as_raw() {
+                // Get rid of the rejected value right now, while `old` is still an ordinary local.
+                // If it was left to be dropped as a parameter on the way out and its destructor
+                // panicked, the already moved-out return value would not be dropped and the debt
+                // it holds would stay in its slot for ever.
+                drop(new);
                 return old;
             }
             // If they are still equal, put the new one in.
